@@ -548,6 +548,15 @@ func (s *Sim) stepReqFront(st *Step) bool {
 		s.rules.onFrontOnly(rec, call.rendered)
 	}
 	s.curCall = nil
+	// the kernel request must be what the client asked for (the simulator's own builder is the
+	// reference for well-formed specs other than searches, whose cursors carry server state)
+	if rec.Req != nil && sp.Kind != "RawHTTP" && sp.Kind != "RawGRPC" && sp.Kind != "SearchPromises" && sp.Kind != "SearchSchedules" && !s.frontsMayDiffer(sp) {
+		if want, aerr, ok := s.build(st.Client, sp); ok && aerr == nil && want != nil {
+			if a, b := reqSig(want), reqSig(rec.Req); a != b {
+				s.violate("C15.request_differs_from_intent", append(P("C15", "C20"), ownersOf(sp.Kind)...), sp.Kind, "the front end handed the kernel another request than the client sent", fmt.Sprintf("via %s: kernel got %s\nclient sent %s", sp.Proto, b, a))
+			}
+		}
+	}
 	// translation shadow: the other protocol must produce the same kernel request
 	if rec.Req != nil && sp.Kind != "RawHTTP" && sp.Kind != "RawGRPC" {
 		s.shadow(st.Client, rec)
@@ -622,9 +631,31 @@ func (s *Sim) shadow(client int, rec *ReqRec) {
 	}
 	a, b := reqSig(rec.Req), reqSig(cap.got)
 	if a != b {
-		s.violate("C15.translation", P("C15", "C20"), sp.Kind, "protocols translate to different kernel requests", fmt.Sprintf("%s: %s\nother: %s", sp.Proto, a, b))
+		s.violate("C15.translation", append(P("C15", "C20"), ownersOf(sp.Kind)...), sp.Kind, "protocols translate to different kernel requests", fmt.Sprintf("%s: %s\nother: %s", sp.Proto, a, b))
 	}
 	s.Probes["shadow_compared"]++
+}
+
+// ownersOf names the properties whose statement is about an operation: a front end that hands
+// the kernel something other than what the client asked for breaks them as well.
+func ownersOf(kind string) []string {
+	switch kind {
+	case "CreatePromise", "CreatePromiseAndTask", "CompletePromise":
+		return []string{"C03", "C02"}
+	case "ReadPromise":
+		return []string{"C02"}
+	case "CreateCallback", "CreateSubscription":
+		return []string{"C05", "C02"}
+	case "ClaimTask", "CompleteTask", "HeartbeatTasks":
+		return []string{"C07", "C02"}
+	case "AcquireLock", "ReleaseLock", "HeartbeatLocks":
+		return []string{"C09", "C02"}
+	case "CreateSchedule", "ReadSchedule", "DeleteSchedule":
+		return []string{"C10", "C02"}
+	case "SearchPromises", "SearchSchedules":
+		return []string{"C14"}
+	}
+	return nil
 }
 
 // frontsMayDiffer: inputs for which the two wire formats legitimately differ
